@@ -122,3 +122,24 @@ DH_MODELS = {"ipv8_rust_tunnels.PrivateKey": "contracts.tunnel_common.DHPrivateK
              "ipv8_rust_tunnels.crypto_auth": "contracts.tunnel_common.crypto_auth_model",
              "ipv8_rust_tunnels.crypto_auth_verify": "contracts.tunnel_common.crypto_auth_verify_model",
              "ipv8_rust_tunnels.generate_session_keys": "contracts.tunnel_common.generate_session_keys_model"}
+
+
+# ---------------------------------------------------------------------------------------------------------------------
+# shared by C05 (isolation) and C06 (exit policy): the outside socket is opened only by data from the previous hop's IP address
+def exit_data_contract():
+    exitsock = ROUTING(f"{ES}::TunnelExitSocket", hop=HOP(), enabled=BOOL, enable=CALLABLE("enable", raises=()),
+                       sendto=CALLABLE("sendto", raises=("Exception",)))
+    comm = OBJ(f"{TC}::TunnelCommunity", logger=LOGGER(), exit_sockets=DICTOBJ(INT, exitsock, where="v.circuit_id == k"))
+    contract(f"{TC}::TunnelCommunity.exit_data", "exit_data.previous-hop-opens-socket",
+             vars={"self": comm, "cid": INT, "sock": ADDRESS, "dest": ADDRESS, "data": BYTES},
+             call="self.exit_data(cid, sock, dest, data)", raises=[],
+             on_effect={"enable": ["cid in self.exit_sockets", "not old(cid in self.exit_sockets and self.exit_sockets[cid].enabled)",
+                                   "sock[0] == self.exit_sockets[cid].hop.peer._address[0]"],
+                        "sendto": ["cid in self.exit_sockets", "args == (data, dest)",
+                                   "self.exit_sockets[cid].enabled or len(calls('enable')) == 1",
+                                   # data that did not come from the previous hop's IP never leaves through a socket that was closed
+                                   "old(cid in self.exit_sockets and self.exit_sockets[cid].enabled)"
+                                   " or sock[0] == self.exit_sockets[cid].hop.peer._address[0]"]},
+             ensures=["implies(not old(cid in self.exit_sockets), len(trace()) == 0)", "len(calls('sendto')) <= 1"],
+             covers=["len(calls('enable')) == 1", "len(calls('sendto')) == 1"],
+             note="unknown circuit: nothing; the socket is enabled - and first data emitted - only from the previous hop's IP address")
